@@ -548,3 +548,60 @@ def _alloc_target(fn, al):
                     if m2.get('op') == 'member' and m2.get('t', '').startswith('p:'):
                         return 'field', (m2['rec'], m2['field'])
     return None
+
+
+# --------------------------------------------------------------------------- C10.17
+
+def r17(ctx, P):
+    """pointers into a block that realloc may move are re-based"""
+    n = 0
+    for fn in P.all_functions():
+        for al in fn.calls('realloc'):
+            a0 = strip_casts(al.args[0])
+            if a0.get('op') != 'member' or not a0.get('t', '').startswith('p:'):
+                continue
+            rec = P.record(a0['rec'])
+            if rec is None:
+                continue
+            objp = fn.path(a0['k'][0]) if a0.get('k') else None
+            sibs = [f_['name'] for f_ in rec['fields'] if f_['t'] == a0['t'] and f_['name'] != a0['field']]
+            # only siblings that somewhere are made to point into this block: X->sib = X->field (+ ...)
+            into = set()
+            for g in P.all_functions():
+                for ev in g.stores():
+                    lhs, rhs, o = ev.store_parts()
+                    l0 = strip_casts(lhs)
+                    if l0.get('op') == 'member' and l0.get('rec') == a0['rec'] and l0['field'] in sibs and rhs is not None and o == '=':
+                        if any(nd.get('op') == 'member' and nd.get('rec') == a0['rec'] and nd.get('field') == a0['field'] for nd in walk(rhs)):
+                            into.add(l0['field'])
+            if not into:
+                continue
+            n += 1
+            ctx.saw(fn, 1)
+            # the store that installs the new block
+            inst = [ev for ev in fn.stores() if strip_casts(ev.store_parts()[0]).get('op') == 'member' and strip_casts(ev.store_parts()[0]).get('field') == a0['field']
+                    and strip_casts(ev.store_parts()[0]).get('rec') == a0['rec'] and ev_after(fn, al, ev)]
+            missing = []
+            for sib in sorted(into):
+                def on_event(e2, facts, sib=sib):
+                    if e2.k == 'store':
+                        l2 = strip_casts(e2.store_parts()[0])
+                        if l2.get('op') == 'member' and l2.get('rec') == a0['rec'] and l2.get('field') == sib:
+                            return 'stop'
+                    if e2.k == 'ret' and (e2.e is None or const_of(e2.e) == 0):
+                        return 'target'
+                    return None
+                for st in inst:
+                    w = find_path(fn, st, on_event, refine=False)
+                    if w is not None:
+                        missing.append((sib, w))
+                        break
+            ctx.ob('C10.17', bool(inst) and not missing, fn.name, 'realloc(%s) re-bases %s' % (show(a0), ', '.join(sorted(into))), al.where(),
+                   'every pointer into the block is stored again after the block may have moved' if (inst and not missing) else
+                   ('%s still points into the old block after a successful realloc moved it: the next write through it goes to freed memory' % missing[0][0] if missing else 'the new block is never installed'),
+                   missing[0][1].render() if missing else None)
+    ctx.floor('reallocated blocks with interior pointers', n, 1)
+
+
+def ev_after(fn, a, b):
+    return (a.block is b.block and a.idx < b.idx) or _reaches(fn, a, b)
